@@ -18,10 +18,10 @@ from vmon.probes import get_open_audit
 RULE = ('file names = product of segment kinds {file names in root, subdir, ., .., empty, sibling directory names that extend the '
         "root's name, decoy names, absolute prefixes incl. the root itself, the sibling and /etc/passwd} x 1..3 segments x separators "
         '{/, \\, //, /./} x leading forms {none, /, \\, //} x root spellings {plain, trailing /, doubled /, via sub/.., relative, /.}; '
-        'each call audited for open() and compared with the tree on disk; histories over several roots (every file of one root served first, then another root asked for it by absolute path); also driven through Ombott.__call__ with the name taken '
+        'each call audited for open() and compared with the tree on disk, and repeated as HEAD (a 200 must describe a file inside the root: every file has its own size); histories over several roots (every file of one root served first, then another root asked for it by absolute path); also driven through Ombott.__call__ with the name taken '
         'from a path wildcard. Non-trivial = the name contains a dot-dot, an absolute prefix, a backslash or a sibling name; '
         'distinct = distinct (root spelling, filename).')
-REQUIRED = ['probes_after_serving_another_root', 'served_200', 'denied_403', 'missing_404', 'opens_observed', 'names_with_dotdot', 'names_with_backslash',
+REQUIRED = ['head_requests', 'probes_after_serving_another_root', 'served_200', 'denied_403', 'missing_404', 'opens_observed', 'names_with_dotdot', 'names_with_backslash',
             'names_absolute', 'names_sibling_prefix', 'served_content_compared', 'via_wsgi']
 EXHAUSTIVE = {'quick': False, 'thorough': False,
               'quick_note': 'the product units enumerate the name product for <=2 segments completely', 'thorough_note': 'the product units enumerate the name product for <=3 segments completely'}
@@ -42,17 +42,18 @@ def build_tree():
         with open(p, 'wb') as f:
             f.write(content)
         files[os.path.realpath(p)] = content
-    put('top-secret.txt', b'ABOVE-ROOT')
+    # every file has its own size, so that a response without a body (HEAD) still tells which file it describes
+    put('top-secret.txt', b'ABOVE-ROOT' * 7)
     put('www/index.html', b'<p>index</p>')
     put('www/a.txt', b'file a')
     put('www/sub/b.txt', b'file b in sub')
     put('www/sub/deep/c.bin', b'\x00\x01c')
     put('www/back\\slash.txt', b'backslash name')
     put('www/..hidden', b'dotdot-prefixed name inside root')
-    put('www2/a.txt', b'SIBLING www2')
-    put('www-private/secret.txt', b'SIBLING www-private')
-    put('wwwx', b'SIBLING file wwwx')
-    put('other/a.txt', b'OTHER')
+    put('www2/a.txt', b'SIBLING www2' * 11)
+    put('www-private/secret.txt', b'SIBLING www-private' * 13)
+    put('wwwx', b'SIBLING file wwwx' * 17)
+    put('other/a.txt', b'OTHER' * 19)
     return base, files
 
 
@@ -94,6 +95,35 @@ def classify(ctx, name):
         ctx.count('names_absolute')
     if 'www2' in name or 'www-private' in name or 'wwwx' in name:
         ctx.count('names_sibling_prefix')
+
+
+def check_head(ctx, static_file, base, files, real_root, rname, root, name, wit):
+    """The same request as HEAD: nothing is opened, but a 200/206/304 must describe a file inside the root
+    (every file in the tree has its own size)."""
+    import ombott
+    ombott.request.__init__(make_environ('HEAD', '/'))
+    try:
+        try:
+            res = static_file(name, root)
+        except Exception as e:  # noqa
+            ctx.violation(f'static_file-raises-{type(e).__name__}', f'HEAD static_file({name!r}, root={rname}) raised {e!r}', wit)
+            return
+        ctx.count('head_requests')
+        if res.status_code in (200, 206, 304):
+            sizes_inside = {len(c) for p, c in files.items() if p.startswith(real_root + os.sep)}
+            cl = res.headers.get('Content-Length')
+            try:
+                n = int(cl)
+            except (TypeError, ValueError):
+                n = None
+            if res.status_code == 200 and n not in sizes_inside:
+                ctx.violation('head-describes-a-file-outside-root', f'HEAD static_file({name!r}, root={rname}:{root!r}) -> {res.status_line} Content-Length {cl} '
+                              f'(sizes of files inside the root: {sorted(sizes_inside)})', wit)
+            body = getattr(res, 'body', None)
+            if hasattr(body, 'close'):
+                body.close()
+    finally:
+        ombott.request.__init__(make_environ('GET', '/'))
 
 
 def check_call(ctx, static_file, audit, base, files, real_root, rname, root, name, wit):
@@ -232,6 +262,8 @@ def product_unit(ctx, unit):
                 show = name.replace(base, '<BASE>')
                 wit = {'unit': {'kind': 'one', 'root': rname, 'name': show}}
                 check_call(ctx, static_file, audit, base, files, real_root, rname, root, name, wit)
+                if nontriv and ('..' in name or name.startswith(('/', '\\')) or 'www' in name):
+                    check_head(ctx, static_file, base, files, real_root, rname, root, name, wit)
                 if k % 50021 == 0:
                     ctx.sample({'root_spelling': rname, 'filename': show})
     finally:
